@@ -211,7 +211,12 @@ func genChain(o hreg.Opts, p chainPlan, mutants bool) (out seqOut) {
 	if !mutants {
 		slots *= 3 // valid blocks are cheap (no mutant volume): longer chains for c01
 	}
+	oddKey := 100000
 	for i := 0; i < slots; i++ {
+		if rng.Intn(8) == 0 {
+			oddKey += 2
+			stat("odd_deposits", submitOddDeposit(c, rng, oddKey))
+		}
 		step, err := c.NextSlot(nil)
 		if err != nil {
 			// the real code refused a block the generator built as valid: hand exactly that block to both sides
